@@ -57,7 +57,10 @@ fn poll_n<F: Future<Output = Option<Vec<u8>>>>(fut: F, polls: usize) -> String {
 }
 
 fn run_impl(script: &[Ev], calls: &[Call]) -> (Vec<String>, Vec<Vec<u8>>, usize, Vec<(Vec<u8>, u64)>) {
-    let mut b = BufferedMsgRelay::new(Mock { script: script.iter().cloned().collect(), asks: vec![] });
+    // `with_capacity(relay, n)` is a pre-allocation hint, not a bound: both constructors must behave identically.
+    // The constructor is chosen from the case itself (deterministic, replayable): capacity 0, 1, 2 or `new`.
+    let mock = Mock { script: script.iter().cloned().collect(), asks: vec![] };
+    let mut b = match (script.len() + 3 * calls.len()) % 4 { 0 => BufferedMsgRelay::new(mock), k => BufferedMsgRelay::with_capacity(mock, k - 1) };
     let mut outs = vec![];
     for c in calls {
         outs.push(match c {
